@@ -55,22 +55,22 @@ theorem dtorBufBase_killed {s : St} {b d : Nat} (hp : s.par b = some d) (hb : s.
 
 /-! ### facts about kinds that follow from the invariant -/
 
-theorem Inv0.buf_ring {ex : Option Var} {s : St} (hi : Inv0 ex s) {b : Nat} (hk : s.kind b = .buf) :
+theorem Inv00.buf_ring {ex : Var → Prop} {s : St} (hi : Inv00 ex s) {b : Nat} (hk : s.kind b = .buf) :
     s.ring b = [] := by
   apply List.eq_nil_iff_forall_not_mem.mpr
   intro v hv
   have h1 := hi.ring_ptr v b hv
-  by_cases hex : ex = some v
+  by_cases hex : ex v
   · exact hi.ex_out v hex b hv
   · have := (hi.ptr_ok v b h1 hex).2.1
     rw [hk] at this
     cases hvk : v.kind <;> simp [HKind.obj, hvk] at this
 
-theorem Inv0.kids_kind {ex : Option Var} {s : St} (hi : Inv0 ex s) {b m : Nat} (h : m ∈ s.kids b) :
+theorem Inv00.kids_kind {ex : Var → Prop} {s : St} (hi : Inv00 ex s) {b m : Nat} (h : m ∈ s.kids b) :
     s.kind m = .mem ∧ (s.kind b = .buf ∨ s.kind b = .pool) :=
   ⟨(hi.kids_ok b m h).2.1, (hi.kids_ok b m h).2.2.2.2⟩
 
-theorem Inv0.kids_nil {ex : Option Var} {s : St} (hi : Inv0 ex s) {o : Nat}
+theorem Inv00.kids_nil {ex : Var → Prop} {s : St} (hi : Inv00 ex s) {o : Nat}
     (h : s.kind o ≠ .buf ∧ s.kind o ≠ .pool) : s.kids o = [] := by
   apply List.eq_nil_iff_forall_not_mem.mpr
   intro m hm
@@ -78,7 +78,7 @@ theorem Inv0.kids_nil {ex : Option Var} {s : St} (hi : Inv0 ex s) {o : Nat}
   · exact h.1 h1
   · exact h.2 h1
 
-theorem Inv0.ch_nil {ex : Option Var} {s : St} (hi : Inv0 ex s) {o : Nat} (h : s.kind o ≠ .dev) (k : Kind) :
+theorem Inv00.ch_nil {ex : Var → Prop} {s : St} (hi : Inv00 ex s) {o : Nat} (h : s.kind o ≠ .dev) (k : Kind) :
     s.chGet k o = [] := by
   apply List.eq_nil_iff_forall_not_mem.mpr
   intro c hc
